@@ -52,8 +52,12 @@ pub fn new_server(texts: &BTreeMap<String, String>, refs_ext: &str) -> Server {
 }
 
 pub fn did_change(server: &mut Server, key: &str, text: &str) {
+    did_change_v(server, key, text, 1)
+}
+
+pub fn did_change_v(server: &mut Server, key: &str, text: &str, version: i32) {
     server.handle_did_change_text_document(DidChangeTextDocumentParams {
-        text_document: VersionedTextDocumentIdentifier { uri: uri(key), version: 1 },
+        text_document: VersionedTextDocumentIdentifier { uri: uri(key), version },
         content_changes: vec![TextDocumentContentChangeEvent { range: None, range_length: None, text: text.to_string() }],
     });
 }
